@@ -147,4 +147,17 @@ theorem gen_relativeUnpack (fmt : List Char) (data : Bytes) (cur : Int) :
     · rfl
     · cases unpack fmt (pySlice data cur (cur + (size : Int))) <;> rfl
 
+/-! ## `group_by_topic_and_partition` (generic in the payload type; reads `.topic` and `.partition`) -/
+
+theorem foldlM_pure_R {α β : Type} (f : β → α → β) (l : List α) : ∀ b : β,
+    List.foldlM (fun b a => (pure (f b a) : R β)) b l = .ok (l.foldl f b) := by
+  induction l with
+  | nil => intro b; rfl
+  | cons a as ih => intro b; rw [List.foldlM_cons]; exact ih (f b a)
+
+theorem gen_groupBy {α : Type} (topic : α → Option Bytes) (partition : α → Int) (xs : List α) :
+    genGroupByTopicAndPartition topic partition xs = .ok (groupByTopicPartition topic partition xs) := by
+  simp only [genGroupByTopicAndPartition, groupByTopicPartition, ddSet2]
+  rw [foldlM_pure_R (fun out t => dictSet out (topic t) (dictSet ((dictGet out (topic t)).getD []) (partition t) t))]
+
 end Afkak.Wire
